@@ -166,6 +166,13 @@ func (C06) Run(c core.Case, ctx *core.Ctx) []core.Violation {
 		rt, sim := execWorld(&w, ctx, k)
 		if rt.InstErr != nil {
 			ctx.St.Inc("inst_rejected")
+			if rt.InstPanic != "" {
+				// a constructor that panics has not reported an error
+				class, site := core.ClassifyPanic(rt.InstPanic, rt.InstPanicStack)
+				out = append(out, core.Violation{Class: class, Site: site, Detail: "construction did not return: " + trunc(rt.InstErr.Error())})
+				finish(ctx, rt, sim)
+				return sortViolations(out)
+			}
 			for _, p := range w.Parties {
 				if p.InForm == world.FormPtrPtrStruct {
 					ctx.St.Inc("c06_double_pointer_rejected_at_construction")
